@@ -135,6 +135,13 @@ def check(case, ctx):
         expect = d - np.linalg.matrix_rank(S.T @ S)
         ctx.true("rank-diff(alpha=0)", rd0 == expect and rd0 >= d - len(Xtr), "rank_diff %r, expected %r" % (rd0, expect))
         ctx.count("rank_deficient_checked")
+    # ... and with an alpha that is lost in floating point the regularised covariance keeps the rank of the data
+    for tiny in (1e-20, 1e-30):
+        with ctx.lib("LPR(alpha=%g)" % tiny):
+            _, rdt = LPR(Xtr, Xte, tiny)
+            _, _, rdc = CPR(Xtr, Xte, tiny, cd)
+        expect = d - np.linalg.matrix_rank(S.T @ S + tiny * np.eye(d))
+        ctx.true("rank-diff(alpha->0)", rdt == expect and rdc == expect, "alpha=%g: rank_diff %r / %r, feature dimension minus rank = %r" % (tiny, rdt, rdc, expect))
     if len(Xtr) >= 2 and d >= 2 and max(len(x) for x in Xte) >= 2:
         ctx.nontrivial = True
 
